@@ -6,6 +6,7 @@ import (
 	"strings"
 
 	"verif/harness/ref/refjson"
+	"verif/harness/ref/refrpc"
 	"verif/harness/sim"
 )
 
@@ -389,6 +390,89 @@ func PushCheck(sc sim.Scenario, h *sim.History) []Problem {
 				add("C09/callbacks-left-behind", "after the end of the scenario the server still tracks callbacks %v", e.Snap.Callbacks)
 			}
 			break
+		}
+	}
+	return probs
+}
+
+// UnsolicitedResponses: every response object the server emits must answer a
+// request with an id that the peer sent (per id text, at most as many responses
+// as requests); an error object with id null needs an inbound member that has
+// no usable id.  Anything else is a message provoked by a reply the peer sent.
+func UnsolicitedResponses(h *sim.History) []Problem {
+	var probs []Problem
+	calls := map[string]int{}
+	nullable := 0
+	for _, e := range h.Events {
+		switch e.Kind {
+		case "sending":
+			var items [][]byte
+			if es, ok := refjson.Elements([]byte(e.Data)); ok {
+				items = es
+				if len(es) == 0 {
+					nullable++
+				}
+			} else if refjson.Valid([]byte(e.Data)) {
+				items = [][]byte{[]byte(e.Data)}
+			} else {
+				nullable++
+			}
+			for _, it := range items {
+				ms, ok := refjson.Members(it)
+				if !ok {
+					nullable++
+					continue
+				}
+				id, hasMethod, replyish := "", false, false
+				for _, m := range ms {
+					switch m.Key {
+					case "id":
+						id = string(m.Value)
+					case "method":
+						hasMethod = true
+					case "result", "error":
+						replyish = true
+					}
+				}
+				switch {
+				case hasMethod && id != "" && id != "null":
+					calls[id]++
+				case hasMethod:
+					nullable++ // an invalid notification-shaped member may be answered with id null
+				case !replyish:
+					nullable++
+					if id != "" {
+						calls[id]++
+					}
+				}
+			}
+		case "wire":
+			if isPushRequest([]byte(e.Data)) {
+				continue
+			}
+			items, _, err := refrpc.SplitReply([]byte(e.Data))
+			if err != nil {
+				continue
+			}
+			for _, it := range items {
+				rsp, err := refrpc.ParseResponse(it)
+				if err != nil {
+					continue
+				}
+				if rsp.ID == "null" {
+					if nullable == 0 {
+						probs = append(probs, Problem{Sig: "C09/server-answers-unsolicited-reply", Msg: fmt.Sprintf("the server emitted %s although the peer sent no member that could be answered with id null", it)})
+					} else {
+						nullable--
+					}
+					continue
+				}
+				if calls[rsp.ID] == 0 {
+					probs = append(probs, Problem{Sig: "C09/server-answers-unsolicited-reply", Msg: fmt.Sprintf("the server emitted %s, which answers no request the peer made with that id (it was provoked by a reply or is a duplicate)", it)})
+				} else {
+					calls[rsp.ID]--
+				}
+			}
 		}
 	}
 	return probs
